@@ -217,8 +217,8 @@ def model_scope(op, args, pool_privs):
     if op == "ossl.roundtrip":
         return "OpenSSL conversion functions are not modelled"
     for k in ("jwk",):
-        if k in args and key_lists_nested(args[k]):
-            return "nested key lists are not modelled"
+        if k in args and key_lists_nested(args[k]) and op not in ("jws.ver", "jws.ver_io"):
+            return "nested key lists are modelled for verification only"
     if rsa_private_edited(args, pool_privs):
         return "inconsistent RSA private members: OpenSSL-internal behaviour"
     return None
